@@ -5113,13 +5113,13 @@ def from_buffers(
                     _form_to_layout,
                     args + (partlen, lazy_cache, lazy_cache_key_part),
                     form=form,
-                    length=length[part],
+                    length=partlen,
                 )
 
                 partitions.append(
                     ak.layout.VirtualArray(generator, lazy_cache, lazy_cache_key_part)
                 )
-                offsets.append(offsets[-1] + length[part])
+                offsets.append(offsets[-1] + partlen)
 
             else:
                 partitions.append(_form_to_layout(*(args + (partlen, None, None))))
